@@ -2,8 +2,10 @@
 A raw numpy/scipy call (onp.*, _np.*, npo.*) receiving a maybe-box operand inside a NON-primitive rule body
 is a sink: under higher-order differentiation the raw call gets an ArrayBox and either raises or (object
 array fallback) silently drops the dependence."""
+import ast
+
 from ..model import norm_text
-from ..terms import children
+from ..terms import T, children
 from .a4_kind import diff_argnums
 from .common import base_name, construct_of, is_numpy_callable, locally_constant, project, resolve_callee
 
@@ -30,6 +32,23 @@ class Taint:
         r = self._of(t)
         self.memo[k] = (t, r)
         return r
+
+    def _deep(self, res, depth=0):
+        """taint of a value that may itself be a function (a closure returning a closure ...): applied to plain symbols"""
+        v = self.of(res)
+        if v == "B" or depth > 2:
+            return v
+        r0 = res
+        while r0 is not None and r0.op == "seq":
+            r0 = r0.value
+        if r0 is not None and r0.op == "closure" and isinstance(r0.fnode, (ast.FunctionDef, ast.Lambda)):
+            fa = r0.fnode.args
+            plain = [T("sym", name=f"q{i}", role="plain") for i in range(len(fa.posonlyargs + fa.args))]
+            try:
+                return self._deep(self.ev.apply(r0, plain, {}, []), depth + 1)
+            except Exception:
+                return v
+        return v
 
     def j(self, xs):
         return "B" if any(x == "B" for x in xs) else "P"
@@ -162,10 +181,28 @@ class Taint:
                 if q.endswith(".vspace"):
                     return "P"
                 if self.world.repo.is_primitive_ref(ref):
+                    # a function handed to a primitive is opaque to the tracer: whatever traced values it captured from
+                    # the rule's scope no longer contribute to the derivative of the primitive's result
+                    for a in list(t.args) + list(t.kw.values()):
+                        clo, pre, prekw = self.ev.as_closure(a) if a.op in ("closure", "partial") else (None, None, None)
+                        if clo is None or not isinstance(clo.fnode, (ast.FunctionDef, ast.Lambda)):
+                            continue
+                        fa = clo.fnode.args
+                        k = len(fa.posonlyargs + fa.args) - len(pre or [])
+                        plain = [T("sym", name=f"p{i}", role="plain") for i in range(max(k, 0))]
+                        try:
+                            res = self.ev.apply(clo, list(pre or []) + plain, dict(prekw or {}), [])
+                        except Exception:
+                            res = None
+                        if res is not None and (any(self.of(x) == "B" for x in (pre or [])) or self._deep(res) == "B"):
+                            self.sinks.append((q + " (closure argument capturing traced values)", ["closure"], t))
+                            break
                     return "B" if anyb else "P"
         r = self.ev.inline(t)
         if r is not None:
             return self.of(r)
+        if fn.op in ("sub", "call", "if", "iterelem") and self.of(fn) == "B":
+            return "B"  # the callee itself was computed from traced values (vjp_x = make_vjp(f(a))(ans)[0]; vjp_x(g))
         return "B" if anyb or "B" in dvals else "P"
 
 
@@ -174,7 +211,7 @@ def traceable(ctx, world):
     n = 0
     raw = 0
     for e in world.table.entries:
-        if e.spec != "maker" or not world.in_numpy_scope(e):
+        if e.spec != "maker" or not (world.in_numpy_scope(e) or e.mod.name.startswith("autograd.misc")):
             continue
         ir = world.ir(e)
         if ir is None or not ir.ok:
